@@ -445,3 +445,194 @@ Proof. induction a as [|x s r IH]; cbn; [reflexivity|]. rewrite IH. reflexivity.
 
 Lemma vl_app_nil p : vl_app p VNone = p.
 Proof. induction p as [|z r IH]; cbn; [reflexivity|]. rewrite IH. reflexivity. Qed.
+
+(* ------------------------------------------------------------------ *)
+(* normalisation facts                                                 *)
+(* ------------------------------------------------------------------ *)
+Lemma normalize_prim T k v : normalize T (SPrim k) v = v.
+Proof. destruct v; reflexivity. Qed.
+
+Lemma normalize_fields_length T : forall vs fl, vl_length (normalize_fields T fl vs) = vl_length vs.
+Proof.
+  induction vs as [|v vr IH]; intros fl; destruct fl as [|a s r]; cbn [normalize_fields vl_length]; try reflexivity.
+  rewrite IH. reflexivity.
+Qed.
+
+Definition norm_field (T : tyenv) (a : fattr) (s : sch) (v : val) : val :=
+  if (fa_tag a =? ANY_TAG) || fa_skip a then (if fa_slice a then VList VNone else zero_of s)
+  else if fa_slice a then match v with VList es => VList (normalize_elems T s es) | _ => v end
+  else normalize T s v.
+
+Lemma normalize_fields_cons T a s r v vr :
+  normalize_fields T (FCons a s r) (VCons v vr) = VCons (norm_field T a s v) (normalize_fields T r vr).
+Proof. reflexivity. Qed.
+
+Lemma normalize_fields_snoc T : forall prev pfl a s v,
+  vl_length prev = fl_len pfl ->
+  normalize_fields T (fl_app pfl (FCons a s FNil)) (vl_snoc prev v) = vl_snoc (normalize_fields T pfl prev) (norm_field T a s v).
+Proof.
+  induction prev as [|p pr IH]; intros pfl a s v Hl; destruct pfl as [|pa ps prl]; cbn in Hl; try discriminate.
+  - reflexivity.
+  - cbn [fl_app vl_snoc]. rewrite !normalize_fields_cons. cbn [vl_snoc]. rewrite IH by lia. reflexivity.
+Qed.
+
+(* a discriminating sibling keeps its value through normalisation, and the decoder sees it in the struct under construction *)
+Lemma key_nth T : forall pfl prev ki q,
+  vl_length prev = fl_len pfl -> key_field (fl_nth pfl ki) ->
+  vl_nth ki (vl_app (normalize_fields T pfl prev) q) = vl_nth ki prev.
+Proof.
+  induction pfl as [|a s r IH]; intros prev ki q Hl Hk.
+  - destruct ki; cbn in Hk; contradiction.
+  - destruct prev as [|p pr]; cbn in Hl; [discriminate|].
+    rewrite normalize_fields_cons. destruct ki as [|kj].
+    + cbn [fl_nth] in Hk. destruct s as [k| |]; try contradiction. destruct Hk as [_ [Hsl How]].
+      cbn [vl_app vl_nth]. unfold norm_field. unfold on_wire in How. apply negb_true_iff in How. rewrite How, Hsl.
+      apply normalize_prim.
+    + cbn [fl_nth] in Hk. cbn [vl_app vl_nth]. apply IH; [lia|exact Hk].
+Qed.
+
+Lemma zeros_of_cons a s r : zeros_of (FCons a s r) = VCons (if fa_slice a then VList VNone else zero_of s) (zeros_of r).
+Proof. reflexivity. Qed.
+
+Lemma prim_zero_is_zero_prim k v : wf_prim k v -> prim_is_zero k v = true -> v = zero_prim k.
+Proof.
+  destruct k, v; cbn; try contradiction; try discriminate; intros _ H.
+  - apply Z.eqb_eq in H. subst. reflexivity.
+  - apply Z.eqb_eq in H. subst. reflexivity.
+  - apply N.eqb_eq in H. subst. reflexivity.
+  - destruct b; [discriminate|reflexivity].
+  - destruct b; [reflexivity|discriminate].
+  - destruct b; [reflexivity|discriminate].
+  - apply Z.eqb_eq in H. subst. reflexivity.
+  - apply Z.eqb_eq in H. subst. reflexivity.
+Qed.
+
+(* an optional field that is omitted because it is zero decodes (by not being there) to what it normalises to *)
+Lemma is_zero_normalize T :
+  (forall s key v, wf T s key v -> is_zero s v = true -> normalize T s v = zero_of s) /\
+  (forall fl prev vs, wf_fields T fl prev vs -> fields_zero fl vs = true -> normalize_fields T fl vs = zeros_of fl) /\
+  (forall cs : dcases, True).
+Proof.
+  apply sch_mutind.
+  - intros k key v Hwf Hz. destruct v; cbn [wf] in Hwf; cbn [is_zero] in Hz;
+      rewrite normalize_prim; apply prim_zero_is_zero_prim; assumption.
+  - intros ty fl IH key v Hwf Hz. destruct v; cbn [wf] in Hwf; try contradiction.
+    destruct Hwf as [-> [Hf _]]. cbn [is_zero] in Hz. cbn [normalize zero_of]. f_equal. eapply IH; eauto.
+  - intros h ki cs _ key v _ Hz. destruct v; cbn [is_zero] in Hz; try discriminate. reflexivity.
+  - intros prev vs Hwf _. destruct vs; cbn [wf_fields] in Hwf; [reflexivity|contradiction].
+  - intros a s IHs r IHr prev vs Hwf Hz. destruct vs as [|v vr]; cbn [wf_fields] in Hwf; [contradiction|].
+    destruct Hwf as [Hv Hr]. cbn [fields_zero] in Hz. apply andb_true_iff in Hz. destruct Hz as [Hzv Hzr].
+    rewrite normalize_fields_cons, zeros_of_cons. f_equal; [|eapply IHr; eauto].
+    unfold norm_field. unfold on_wire in Hv.
+    destruct ((fa_tag a =? ANY_TAG) || fa_skip a); cbn [negb] in Hv; [reflexivity|].
+    destruct (fa_slice a).
+    + destruct v; try contradiction. destruct vs; [reflexivity|discriminate].
+    + eapply IHs; eauto.
+  - exact I.
+  - intros; exact I.
+Qed.
+
+(* ------------------------------------------------------------------ *)
+(* the round trip                                                      *)
+(* ------------------------------------------------------------------ *)
+Lemma at_item_split t b1 b2 s : at_item t (be 3 t ++ b1 ++ b2) [] s -> at_item t (be 3 t ++ b1) b2 s.
+Proof.
+  intros [->|[b' [Heq ->]]].
+  - left. rewrite app_nil_r, <- !app_assoc. reflexivity.
+  - right. apply app_inv_head in Heq. subst b'. exists b1. split; [reflexivity|]. rewrite app_nil_r. reflexivity.
+Qed.
+
+Lemma takeN_app (b tl : bytes) : takeN (blen b) (b ++ tl) = b.
+Proof.
+  unfold takeN. rewrite blen_app. replace (N.min (blen b) (blen b + blen tl)) with (blen b) by lia.
+  unfold blen. rewrite Nat2N.id. apply firstn_app_exact.
+Qed.
+
+Lemma dropN_app (b tl : bytes) : dropN (blen b) (b ++ tl) = tl.
+Proof.
+  unfold dropN. rewrite blen_app. replace (N.min (blen b) (blen b + blen tl)) with (blen b) by lia.
+  unfold blen. rewrite Nat2N.id. apply skipn_app_exact.
+Qed.
+
+Lemma wrap_blen tag body : blen (wrap tag body) = 8 + blen body.
+Proof. unfold wrap. rewrite blen_app, header_blen. reflexivity. Qed.
+
+(* a structure: header, then the fields inside the limited region *)
+Lemma dec_struct_rt ty fl a body tl st vs' :
+  tag_ok (fa_tag a) -> blen body < 2 ^ 32 ->
+  at_item (fa_tag a) (wrap (fa_tag a) body) tl st ->
+  (exists st', dec_fields fl 0 (blen body) {| rest := body; last := 0 |} 0 0 (zeros_of fl)
+               = Ok (vs', blen body, 0 + blen body, st')) ->
+  forall cur, dec_value (SStruct ty fl) a st cur
+              = Ok (VStruct ty vs', blen (wrap (fa_tag a) body), {| rest := tl; last := 0 |}).
+Proof.
+  intros [Hz [Hlt _]] Hlen Hat [st' Hf] cur.
+  unfold wrap, header in Hat. rewrite <- !app_assoc in Hat.
+  cbn [dec_value].
+  rewrite (expect_tag_item _ _ _ _ Hz Hlt Hat). cbn [bind]. rewrite <- !app_assoc.
+  unfold tc_structure. rewrite expect_num_be by (cbn; lia). cbn [bind].
+  rewrite read_num_be by (cbn; lia). cbn [bind rest last].
+  rewrite takeN_app, dropN_app. rewrite Hf. cbn [bind]. rewrite N.eqb_refl.
+  rewrite wrap_blen. rewrite N.add_0_l. reflexivity.
+Qed.
+
+Lemma enc_elems_len T s tag : forall es b, enc_elems T s tag es = Some b -> (vl_length es <= length b)%nat.
+Proof.
+  induction es as [|e er IH]; intros b H; cbn [enc_elems] in H; [cbn; lia|].
+  destruct (enc_value T s tag e) as [b1|] eqn:E1; cbn [obind] in H; [|discriminate].
+  destruct (enc_elems T s tag er) as [b2|] eqn:E2; cbn [obind] in H; [|discriminate]. injection H as <-.
+  destruct (enc_value_starts _ _ _ _ _ E1) as [b' [-> Hb']]. specialize (IH _ eq_refl).
+  cbn [vl_length]. rewrite !app_length, be_length. unfold blen in Hb'. lia.
+Qed.
+
+Section RT.
+  Variable T : tyenv.
+  Hypothesis Henv : env_ok T.
+
+  Definition value_rt (v : val) : Prop :=
+    forall s key a tl st cur b,
+      sch_ok T s -> wf T s key v -> enc_value T s (fa_tag a) v = Some b ->
+      tag_ok (fa_tag a) -> at_item (fa_tag a) b tl st ->
+      (match s with SDyn _ ki _ => vl_nth ki cur = key | _ => True end) ->
+      dec_value s a st cur = Ok (normalize T s v, blen b, {| rest := tl; last := 0 |}).
+
+  Definition fields_rt (vs : vlist) : Prop :=
+    forall fl pfl prev body st explen actual nsum,
+      fl_ok T pfl fl -> wf_fields T fl prev vs -> enc_fields T fl vs = Some body ->
+      vl_length prev = fl_len pfl ->
+      at_stream body st -> actual + blen body = explen -> explen < 2 ^ 32 ->
+      exists st', dec_fields fl (fl_len pfl) explen st actual nsum
+                             (vl_app (normalize_fields T pfl prev) (zeros_of fl))
+                  = Ok (vl_app (normalize_fields T pfl prev) (normalize_fields T fl vs), explen, nsum + blen body, st').
+
+  Definition not_dyn (s : sch) : Prop := match s with SDyn _ _ _ => False | _ => True end.
+
+  Definition elems_rt (es : vlist) : Prop :=
+    forall s a rest_body b st explen actual nsum acc cur fuel,
+      es <> VNone -> sch_ok T s -> not_dyn s -> wf_elems T s es -> enc_elems T s (fa_tag a) es = Some b ->
+      tag_ok (fa_tag a) ->
+      at_item (fa_tag a) (b ++ rest_body) [] st ->
+      (rest_body = [] \/ exists t r, rest_body = be 3 t ++ r /\ t <> fa_tag a /\ t <> 0 /\ t < 2 ^ 24) ->
+      actual + blen b + blen rest_body = explen -> explen < 2 ^ 32 ->
+      (vl_length es <= fuel)%nat ->
+      exists st', slice_loop fuel (fun st0 => dec_value s a st0 cur) (fa_tag a) false explen st actual nsum acc
+                  = Ok (vl_app acc (normalize_elems T s es), actual + blen b, nsum + blen b, st')
+                  /\ at_stream rest_body st'.
+
+  (* a structure value, given the statement for its fields *)
+  Lemma struct_value_rt ty fl vs a tl st cur :
+    fields_rt vs -> fl_ok T FNil fl -> wf_fields T fl VNone vs ->
+    (exists body, enc_fields T fl vs = Some body /\ blen body < 2 ^ 32) ->
+    tag_ok (fa_tag a) ->
+    forall body, enc_fields T fl vs = Some body ->
+    at_item (fa_tag a) (wrap (fa_tag a) body) tl st ->
+    dec_value (SStruct ty fl) a st cur
+    = Ok (VStruct ty (normalize_fields T fl vs), blen (wrap (fa_tag a) body), {| rest := tl; last := 0 |}).
+  Proof.
+    intros Hf Hok Hwf [body0 [He0 Hlen]] Htag body He Hat. rewrite He in He0. injection He0 as <-.
+    apply dec_struct_rt; auto.
+    specialize (Hf fl FNil VNone body {| rest := body; last := 0 |} (blen body) 0 0 Hok Hwf He eq_refl).
+    destruct Hf as [st' Hst']; [left; reflexivity|lia|assumption|].
+    cbn [normalize_fields vl_app fl_len] in Hst'. eauto.
+  Qed.
+End RT.
